@@ -24,6 +24,7 @@ type Env struct {
 	T        *Trace
 	Dir      string
 	Srv      *server.GCAServer
+	Live     *server.GCAServer // the server object last seen by a hook (set during start-up too)
 	WithDisk bool
 	Quiet    map[string]bool // hook events not recorded
 
@@ -48,6 +49,7 @@ func NewEnv(t *Trace) *Env {
 	}
 	server.VerifHook = e.onHook
 	server.VerifYieldHook = func(s *server.GCAServer, p string) {
+		e.Live = s
 		if y := e.Yield; y != nil {
 			y(s, p)
 		}
@@ -99,6 +101,7 @@ func (e *Env) post(s *server.GCAServer, locked bool) J {
 
 // onHook converts the implementation's trace points into abstract events.
 func (e *Env) onHook(s *server.GCAServer, _ uint64, ev string, args []interface{}) {
+	e.Live = s
 	if e.Quiet[ev] {
 		e.notify(ev)
 		return
@@ -121,6 +124,11 @@ func (e *Env) onHook(s *server.GCAServer, _ uint64, ev string, args []interface{
 	case "CatchUpPoll", "RotPoll", "RotGo":
 		j["ero"] = Clamp30(uint64(args[0].(uint32)))
 		j["t"] = Clamp30(uint64(args[1].(uint32)))
+		if ev == "CatchUpPoll" {
+			// not inside a critical section: the state loaded from disk (first
+			// poll) or left by the previous catch-up rotation
+			j["post"] = e.post(s, false)
+		}
 	case "Rotate":
 		w := e.Week(ToRawWeek(args[0].(server.AllDeviceStats)))
 		j["tag"] = w["tag"]
@@ -380,13 +388,22 @@ func (e *Env) ReportBytes(id, ts uint32, val uint64, signer string, alt int) []b
 
 // Deliver hands a datagram to the report handler synchronously.
 func (e *Env) Deliver(b []byte) {
-	e.Srv.VerifHandleDatagram(b)
+	if p := catch(func() { e.cur().VerifHandleDatagram(b) }); p != "" {
+		e.T.Emit(J{"a": "Panic", "where": "report handler", "what": p})
+	}
+}
+
+func (e *Env) cur() *server.GCAServer {
+	if e.Srv != nil {
+		return e.Srv
+	}
+	return e.Live
 }
 
 // SendUDP sends a datagram to the real UDP port and waits for the listener
 // to have read it (and, for 80 bytes or more, for the handler to finish).
 func (e *Env) SendUDP(b []byte) bool {
-	_, _, up := e.Srv.Ports()
+	_, _, up := e.cur().Ports()
 	waitRead := e.Expect("UDPRead")
 	var waitRecv func(time.Duration) bool
 	if len(b) >= 80 {
